@@ -334,7 +334,9 @@ func (fi *FileInfo) checkObjects() error {
 			// cycles, so this stays safe on malformed input.
 			x, endPos, err := fi.doRead(objInfo, fi.makeSafeGetInt(), false)
 			if err != nil {
-				if IsMalformed(err) {
+				// An object cut short by the end of the file is broken, just
+				// like one with invalid syntax; it must not abort the scan.
+				if IsMalformed(err) || errors.Is(err, io.EOF) || errors.Is(err, io.ErrUnexpectedEOF) {
 					objInfo.Broken = true
 					continue
 				}
